@@ -96,8 +96,9 @@ func c40Worker(o *c40Obs, prog string, idx int) {
 		tr, _ := NewTrackLocalStaticSample(RTPCodecCapability{MimeType: MimeTypeVP8, ClockRate: 90000}, fmt.Sprintf("w%d", idx), "s")
 		_, _ = x.AddTrack(tr)
 	case "RemoveTrack":
+		// the sender of the track the WriteRTP program writes to, so that the two really meet
 		for _, s := range x.GetSenders() {
-			if s.Track() != nil {
+			if s.Track() == TrackLocal(o.track) {
 				_ = x.RemoveTrack(s)
 
 				break
@@ -158,6 +159,9 @@ func c40Body(t testing.TB, sc c40Scenario) (func(), *c40Obs) {
 			vkit.Fatalf(t, "track: %v", err)
 		}
 		o.track = tr
+		if _, err = x.AddTrack(tr); err != nil {
+			vkit.Fatalf(t, "AddTrack: %v", err)
+		}
 		if sc.Stage == "stable" {
 			vpStage(t, w, "stable")
 		}
